@@ -745,7 +745,7 @@ theorem stepItem_addErrs (r : SStruct ν) (es : List Err) (p : PState ν) (it : 
           split
           · cases f.conv m with
             | ok v => rfl
-            | err e => simp only [push_addErrs]
+            | err e => simp only [set_addErrs, push_addErrs]
             | panic msg => rfl
           · split
             · cases f.conv m with
